@@ -407,8 +407,16 @@ class Cache(Filter[Iterable[Any], Iterable[Any]]):
             return
 
         yield from self._cache
-        items = self._iter
-        while current := list(islice(self._iter,n_slice)):
+        while True:
+            try:
+                current = list(islice(self._iter,n_slice))
+            except:
+                #the source failed part way through. What has been cached so far is not all there is
+                #and the iterator may be dead, so we discard both and the next read starts from scratch.
+                self._cache = None
+                self._iter  = None
+                raise
+            if not current: break
             self._cache.extend(current)
             yield from current
         self._iter = None
